@@ -16,7 +16,7 @@ EXPLANATION = "C16: addresses, sequence number, message octets, identifier chara
 BOUNDS = {"quick": "TMS: 3 PDU types x address lengths {0,1,4} x sequence 0..127 x encoding {none, UCS2} x message lengths {0,2,8}; ARS: 5 PDU types x flags x identifier lengths {0,1,5} x "
                    "refresh 1..127 x failure reasons x CSBK trailer on/off",
           "thorough": "address length 255, message 400 octets, identifiers 255 characters in addition"}
-OUTSIDE = "identifiers / passwords containing non-ASCII characters (multi-byte UTF-8 is not modelled); TMS address longer than 255 octets"
+OUTSIDE = "non-ASCII identifiers: concrete witnesses only, not solver-decided (multi-byte UTF-8 is not modelled); TMS address longer than 255 octets"
 ASSUMPTIONS = ["a sequence number / encoding that is absent (None) and the value 0 / UNDEFINED are the same field value (the wire format cannot tell them apart)",
                "identifier strings are ASCII (utf-8 encoding is then octet-identical)"]
 
@@ -106,6 +106,24 @@ def h_ars_registration(hx, ptype, dlen, ulen, plen):
     hx.cover("registration")
 
 
+NON_ASCII = ["\u00e9", "OK1\u00c1B", "\u65e5\u672c", "a\u20acb", "\U0001f4fb"]      # 2-, 3- and 4-octet UTF-8 sequences
+
+
+def h_ars_unicode(hx, ptype):
+    """identifiers / password with multi-octet UTF-8 characters: the symbolic text model covers the ASCII range only, so these are CONCRETE
+    witnesses (declared split), not solver-decided: the length prefixes must count octets, not characters"""
+    more = hx.flag("more")
+    hdr = ARSFirstHeader(pdu_type=getattr(ARSPDUType, ptype), has_more_headers=more, is_acknowledged=hx.flag("ack"), is_priority=False, is_control_message=False)
+    dev, usr, pwd = hx.pick("dev", ["1234"] + NON_ASCII), hx.pick("usr", NON_ASCII + [""]), hx.pick("pwd", ["", NON_ASCII[0], NON_ASCII[2]])
+    msg = AutomaticRegistrationService(first_header=hdr, registration_request_header=RegistrationRequestHeader(event=list(RegistrationEvent)[0]) if more else None,
+                                       device_identifier=dev, user_identifier=usr, password=pwd, is_csbk_ars=False)
+    tag = "ARS %s with non-ASCII identifiers (%r, %r, %r)" % (ptype, dev, usr, pwd)
+    q = ars_common(hx, msg, tag)
+    if q is not None:
+        hx.prove(q.device_identifier == dev and q.user_identifier == usr and q.password == pwd, "%s: identifiers and password" % tag)
+    hx.cover("registration")
+
+
 def h_ars_response(hx):
     more = hx.flag("more")
     failure = hx.flag("ack")          # is_acknowledged set = failure scenario (second header carries the failure reason)
@@ -154,6 +172,8 @@ def cases(tier, seed):
         out.append(Case("tms-avail-a%d" % a, "h_tms_avail", dict(alen=a), covers=["avail"], budget_s=300, bounds="address %d symbolic octets, capability split" % a))
     ids = [(0, 0, 0), (1, 0, 5), (5, 1, 0), (5, 5, 5)] if tier == "quick" else [(0, 0, 0), (1, 0, 5), (5, 1, 0), (5, 5, 5), (255, 1, 0), (0, 255, 255)]
     for pt in ("DEVICE_REGISTRATION_REQUEST", "USER_REGISTRATION_REQUEST"):
+        out.append(Case("ars-%s-non-ascii" % pt, "h_ars_unicode", dict(ptype=pt), covers=["registration"], budget_s=300,
+                        bounds="concrete witnesses (not solver-decided): identifiers / passwords with 2-, 3- and 4-octet UTF-8 characters"))
         for d, u, p in ids:
             out.append(Case("ars-%s-%d-%d-%d" % (pt, d, u, p), "h_ars_registration", dict(ptype=pt, dlen=d, ulen=u, plen=p), covers=["registration"], budget_s=300,
                             opts=dict(max_paths=4000), bounds="identifier characters symbolic ASCII; header flags, event, CSBK trailer split"))
